@@ -648,6 +648,9 @@ func exec(op string) vlib.Res {
 	if len(f) < 2 || f[0] != "autota" {
 		return vlib.Res{Impl: "bad-op"}
 	}
+	if f[1] == "l3" {
+		return l3op(f)
+	}
 	if f[1] != "new" && S == nil {
 		return vlib.Res{Impl: "bad-op"}
 	}
